@@ -426,7 +426,7 @@ package secret
 @*/
 
 /*@ func types/secret.ToUnitary$1
-  props C20
+  props C20 C16
   requires (and (not (= {delegate} vnil)) (not (= {log} vnil)))
   ghost called : Bool := false
   at call(OnInitialize) assert [only-for-exactly-one-object-and-with-that-object] (and (= (slen {objs}) 1) (= $0 (select (sarr {objs}) 0)) (not called))
@@ -434,7 +434,7 @@ package secret
   exit [delegates-exactly-when-there-is-exactly-one-object] (= called (= (slen {objs}) 1))
 @*/
 /*@ func types/secret.ToUnitary$2
-  props C20
+  props C20 C16
   requires (not (= {delegate} vnil))
   ghost called : Bool := false
   at call(OnCreate) assert [delegates-create-with-the-same-object] (and (= $0 {obj}) (not called))
@@ -442,7 +442,7 @@ package secret
   exit [always-delegates-once] called
 @*/
 /*@ func types/secret.ToUnitary$3
-  props C20
+  props C20 C16
   requires (not (= {delegate} vnil))
   ghost called : Bool := false
   at call(OnUpdate) assert [delegates-update-with-the-same-object] (and (= $0 {obj}) (not called))
@@ -450,7 +450,7 @@ package secret
   exit [always-delegates-once] called
 @*/
 /*@ func types/secret.ToUnitary$4
-  props C20
+  props C20 C16
   requires (not (= {delegate} vnil))
   ghost called : Bool := false
   at call(OnDelete) assert [delegates-delete-with-the-same-object] (and (= $0 {obj}) (not called))
